@@ -268,6 +268,14 @@ func respell(s *sim.Sim, tok string) (string, string) {
 }
 
 func c05Unit(c *RunCtx, unit int) {
+	if unit%16 == 0 {
+		// tokens of different accounts share nothing — also when many requests mint them at once
+		if msg, n := tokenBurst(32, 2000); msg != "" {
+			c.Stats.Violations = append(c.Stats.Violations, sim.VioRec{Violation: *vio("C05", "one-time-token-generator-under-concurrency", "%s", msg), Index: unit})
+		} else {
+			c.Stats.Add("tokens-generated-in-parallel", n)
+		}
+	}
 	r := Rng(c.Seed, "C05", unit)
 	mods := []string{"auth", "confirm", "recover", "logout"}
 	if r.Intn(2) == 0 {
